@@ -453,3 +453,48 @@ def dnf(s, blk, within=None, limit=512):
         return out
 
     return rec(blk, frozenset())
+
+
+class Sub:
+    """collects the findings of another rule set so that selected rules can be re-labelled"""
+
+    def __init__(self, ctx, mapping):
+        self.ctx = ctx
+        self.mapping = mapping
+
+    def __getattr__(self, name):
+        return getattr(self.ctx, name)
+
+    def _m(self, rule):
+        return self.mapping.get(rule)
+
+    def ok(self, rule, desc, where=''):
+        if self._m(rule):
+            self.ctx.ok(self._m(rule), desc, where)
+
+    def instance(self, rule, desc, where=''):
+        if self._m(rule):
+            self.ctx.instance(self._m(rule), desc, where)
+
+    def violation(self, rule, key, msg, where=''):
+        if self._m(rule):
+            self.ctx.violation(self._m(rule), key, msg, where)
+
+    def inconclusive(self, rule, reason):
+        if self._m(rule):
+            self.ctx.inconclusive(self._m(rule), reason)
+
+    def bulk(self, rule, total, discharged):
+        if self._m(rule):
+            self.ctx.bulk(self._m(rule), total, discharged)
+
+    def floor(self, rule, what, count, minimum):
+        if self._m(rule):
+            return self.ctx.floor(self._m(rule), what, count, minimum)
+        return True
+
+    def note(self, s):
+        pass
+
+
+_Sub = Sub
